@@ -854,6 +854,9 @@ func (c *Ctx) lemmaObligations(name string) ([]*Obligation, error) {
 			}
 		}
 	}
+	for _, bd := range binders {
+		b.WriteString("(declare-fun " + strings.Replace(strings.TrimSuffix(strings.TrimPrefix(bd, "("), ")"), " ", " () ", 1) + ")\n")
+	}
 	for _, l := range c.lemmas[:idx] {
 		ax := c.lemmaAxiom(l)
 		use := false
@@ -863,11 +866,39 @@ func (c *Ctx) lemmaObligations(name string) ([]*Obligation, error) {
 			}
 		}
 		if use {
+			if strings.HasPrefix(ax, ";;HEAPLEMMA ") {
+				// an earlier heap-reading lemma: instantiated with this lemma's own heaps (current, and - for a
+				// one-heap lemma - also the old heap)
+				avail := map[string]bool{}
+				for _, bd := range binders {
+					avail[strings.Fields(strings.Trim(bd, "()"))[0]] = true
+				}
+				rest := strings.TrimPrefix(ax, ";;HEAPLEMMA ")
+				bar := strings.Index(rest, "|")
+				vars, text := strings.Split(rest[:bar], ","), rest[bar+1:]
+				inst := func(toOld bool) {
+					out := text
+					for _, v := range vars {
+						tgt := v
+						if toOld {
+							if strings.HasPrefix(v, "hpo_") {
+								return
+							}
+							tgt = "hpo_" + strings.TrimPrefix(v, "hp_")
+						}
+						if !avail[tgt] {
+							return
+						}
+						out = regexp.MustCompile(`\b`+regexp.QuoteMeta(v)+`\b`).ReplaceAllString(out, "@@"+tgt)
+					}
+					b.WriteString(strings.ReplaceAll(out, "@@", "") + "\n")
+				}
+				inst(false)
+				inst(true)
+				continue
+			}
 			b.WriteString(ax + "\n")
 		}
-	}
-	for _, bd := range binders {
-		b.WriteString("(declare-fun " + strings.Replace(strings.TrimSuffix(strings.TrimPrefix(bd, "("), ")"), " ", " () ", 1) + ")\n")
 	}
 	if lm.Induct != "" {
 		ib, ireq, iens, itrig := c.lemmaFormula(lm, "_ih")
@@ -884,6 +915,32 @@ func (c *Ctx) lemmaObligations(name string) ([]*Obligation, error) {
 			ibody = "(! " + ibody + " " + itrig + ")"
 		}
 		b.WriteString(fmt.Sprintf("(assert (forall (%s) %s))\n", strings.Join(kept, " "), ibody))
+		// the hypothesis for the immediate predecessor with all other parameters unchanged, as a ground fact
+		// (the common shape of these inductions; spares the solver the instantiation and puts f(k-1) in the term pool)
+		var lets []string
+		for _, bd := range kept {
+			name := strings.Fields(strings.Trim(bd, "()"))[0]
+			base := strings.TrimSuffix(name, "_ih")
+			if name == kih {
+				lets = append(lets, fmt.Sprintf("(%s (- %s 1))", name, k))
+			} else {
+				lets = append(lets, fmt.Sprintf("(%s %s)", name, base))
+			}
+		}
+		b.WriteString(fmt.Sprintf("(assert (let (%s) %s))\n", strings.Join(lets, " "), implies(and(app("<=", "0", kih), ireq), iens)))
+		// term seeding: the last element of every slice parameter enters the term pool, so that element-wise
+		// hypotheses (patterns over elemref) can be instantiated for it
+		seeded := false
+		for _, bd := range binders {
+			f := strings.Fields(strings.Trim(bd, "()"))
+			if len(f) == 2 && f[1] == "Slice" {
+				if !seeded {
+					b.WriteString("(declare-fun seed!ref (Ref) Bool)\n")
+					seeded = true
+				}
+				b.WriteString(fmt.Sprintf("(assert (seed!ref (elemref %s (- %s 1))))\n", f[0], k))
+			}
+		}
 	}
 	b.WriteString("(assert " + req + ")\n(assert (not " + ens + "))\n")
 	o := &Obligation{Name: "lemma:" + name, Fn: "lemma:" + name, Kind: "lemma", Src: "lemma " + name, Where: lm.Where, Query: b.String(), NoLemmas: true, Native: lm.Theory == "strings", Uses: lm.Uses}
@@ -1108,6 +1165,45 @@ var heapTermRe = regexp.MustCompile(`H_[A-Za-z0-9_.]+![0-9]+`)
 
 // expandHeapLemma instantiates a heap-reading lemma with every combination of
 // heap terms (of the right sort) occurring in the query.
+// heapStates: the tuples of heap terms that occur as leading arguments of applications of the given spec functions.
+func heapStates(query string, specNames []string) []map[string]string {
+	seen := map[string]bool{}
+	var out []map[string]string
+	for _, sn := range specNames {
+		re := regexp.MustCompile(`\(` + regexp.QuoteMeta(sn) + `((?: H_[A-Za-z0-9_().]+![0-9]+)+)[ )]`)
+		for _, m := range re.FindAllStringSubmatch(query, -1) {
+			key := strings.TrimSpace(m[1])
+			if seen[key] {
+				continue
+			}
+			seen[key] = true
+			st := map[string]string{}
+			for _, t := range strings.Fields(key) {
+				name := t[:strings.Index(t, "!")]
+				for _, suf := range []string{"_h", "_c", "_cp", "_ap", "_it", "_cb"} {
+					name = strings.TrimSuffix(name, suf)
+				}
+				st[name] = t
+			}
+			out = append(out, st)
+		}
+	}
+	// keep the states with the most heaps only (applications of functions reading fewer heaps are projections)
+	max := 0
+	for _, m := range out {
+		if len(m) > max {
+			max = len(m)
+		}
+	}
+	var full []map[string]string
+	for _, m := range out {
+		if len(m) == max {
+			full = append(full, m)
+		}
+	}
+	return full
+}
+
 func expandHeapLemma(tmpl, query string) string {
 	rest := strings.TrimPrefix(tmpl, ";;HEAPLEMMA ")
 	i := strings.Index(rest, "|")
@@ -1167,6 +1263,70 @@ func expandHeapLemma(tmpl, query string) string {
 		cands[vi] = kept
 		if len(kept) == 0 {
 			return ""
+		}
+	}
+	// states: heap versions that occur together as the leading arguments of one spec-function application belong to
+	// one program state; a lemma is instantiated with whole states (current x old), not with every mix of versions
+	if os.Getenv("VERIF_DEBUG_HEAP") != "" {
+		fmt.Fprintf(os.Stderr, "heap lemma vars=%v specs=%v states=%v\n", vars, specNames, heapStates(query, specNames))
+	}
+	if st := heapStates(query, specNames); len(st) > 0 {
+		var curVars, oldVars []string
+		for _, v := range vars {
+			if strings.HasPrefix(v, "hpo_") {
+				oldVars = append(oldVars, v)
+			} else {
+				curVars = append(curVars, v)
+			}
+		}
+		sortOfVar := func(v string) string { return strings.TrimPrefix(strings.TrimPrefix(v, "hpo_"), "hp_") }
+		covers := func(state map[string]string, vs []string) bool {
+			for _, v := range vs {
+				if _, ok := state[sortOfVar(v)]; !ok {
+					return false
+				}
+			}
+			return true
+		}
+		var full []map[string]string
+		for _, m := range st {
+			if covers(m, curVars) && covers(m, oldVars) {
+				full = append(full, m)
+			}
+		}
+		if len(full) > 0 {
+			var out strings.Builder
+			n := 0
+			for _, cs := range full {
+				olds := full
+				if len(oldVars) == 0 {
+					olds = full[:1]
+				}
+				for _, os := range olds {
+					if n > 120 {
+						break
+					}
+					cur := text
+					for _, v := range curVars {
+						cur = replaceToken(cur, v, cs[sortOfVar(v)])
+					}
+					same := true
+					for _, v := range oldVars {
+						cur = replaceToken(cur, v, os[sortOfVar(v)])
+						if os[sortOfVar(v)] != cs[sortOfVar(v)] {
+							same = false
+						}
+					}
+					if len(oldVars) > 0 && same {
+						continue
+					}
+					out.WriteString(cur + "\n")
+					n++
+				}
+			}
+			if n > 0 {
+				return out.String()
+			}
 		}
 	}
 	var out strings.Builder
